@@ -40,6 +40,11 @@ def unbox(vc, x, ts):
     return V('(%s.v %s)' % (ctor_for(vc, ts), x.term), s, ts)
 
 
+def is_lit(t):
+    import re
+    return re.match(r'^(\d+|\(- \d+\))$', t) is not None
+
+
 def fp_lit(hexs, bits):
     f = float.fromhex(hexs)
     if bits == 64:
@@ -163,6 +168,10 @@ class Exec:
             env[p['n']] = self.vals[p['n']]
         if self.contract is not None and self.contract.recv_name and self.f.params:
             env[self.contract.recv_name] = self.vals[self.f.params[0]['n']]
+        if self.contract is not None and self.contract.param_names:
+            # interface contract checked on an implementation: the interface's parameter names alias ours
+            for nme, p in zip(self.contract.param_names, self.f.params[1:]):
+                env.setdefault(nme, self.vals[p['n']])
         return env
 
     # ---- main loop ----------------------------------------------------------------------
@@ -175,6 +184,20 @@ class Exec:
             self.vals[p['n']] = a
         self.entry_state = state.copy()
         self.entry_env = self.param_env()
+        if self.top is self:
+            # block -> set of blocks reachable from it (full CFG), for path slicing of assumptions
+            rs = {}
+            for b in f.blocks:
+                seen = set()
+                stk = [b['idx']]
+                while stk:
+                    x = stk.pop()
+                    if x in seen:
+                        continue
+                    seen.add(x)
+                    stk.extend(f.blocks[x]['succs'])
+                rs[b['idx']] = seen
+            vc.reach_sets = rs
         order = f.topo_order()
         loops = {l['header']: l for l in f.loops()}
         back = set()
@@ -202,6 +225,8 @@ class Exec:
                     if all(k in m and m[k].term == v.term for m in maps[1:]):
                         nm[k] = v
                 self.named = nm
+                if self.top is self:
+                    vc.cur_block = b
                 if b in loops:
                     r, st = self.enter_loop(loops[b], ins)
                 else:
@@ -210,6 +235,8 @@ class Exec:
             self.cur_ins = ins
             self.reach = r
             self.st = st
+            if self.top is self:
+                vc.cur_block = b
             self.exec_block(blk, b in loops)
             self.named_out[b] = self.named
         return self.rets
@@ -874,7 +901,7 @@ class Exec:
             else:
                 self.setv(ins, V('(fp.neg %s)' % x.term, x.sort, ins['t']))
         elif u == '^':
-            f = vc.ufun('go.not', ['Int'], 'Int')
+            f = vc.ufun('ext.go.not', ['Int'], 'Int')
             self.setv(ins, V('(%s %s)' % (f, x.term), 'Int', ins['t']))
         else:
             raise Unsupported('unary ' + u)
@@ -1037,18 +1064,28 @@ class Exec:
                 return
             raise Unsupported('string binop ' + op)
         if s in ('F64', 'F32'):
-            f = {'+': 'fp.add RNE', '-': 'fp.sub RNE', '*': 'fp.mul RNE', '/': 'fp.div RNE'}.get(op)
-            if not f:
+            if op not in ('+', '-', '*', '/'):
                 raise Unsupported('float binop ' + op)
+            # IEEE arithmetic left uninterpreted (same symbol in code and specification): bit-blasting
+            # double division/multiplication does not fit the quick timeout and no claim needs its value
+            f = vc.ufun('ext.fp.%s.%s' % ({'+': 'add', '-': 'sub', '*': 'mul', '/': 'div'}[op], s), [s, s], s)
             self.setv(ins, V('(%s %s %s)' % (f, x.term, y.term), s, ts))
             return
         if s == 'Int':
-            if op in ('+', '-', '*'):
+            if op == '*' and not is_lit(x.term) and not is_lit(y.term):
+                # non-linear product: left uninterpreted (the same symbol in code and specification)
+                t = self.wrap('(%s %s %s)' % (vc.ufun('ext.go.mul', ['Int', 'Int'], 'Int'), x.term, y.term), ts)
+            elif op in ('+', '-', '*'):
                 t = self.wrap('(%s %s %s)' % (op, x.term, y.term), ts)
             elif op in ('/', '%'):
                 self.oblige('divzero', 'integer division by zero', self.reach, '(not (= %s 0))' % y.term, ['C03'], line)
                 vc.assume('(not (= %s 0))' % y.term, self.reach)
-                t = '(go.quo %s %s)' % (x.term, y.term) if op == '/' else '(go.rem %s %s)' % (x.term, y.term)
+                if is_lit(y.term):
+                    t = '(go.quo %s %s)' % (x.term, y.term) if op == '/' else '(go.rem %s %s)' % (x.term, y.term)
+                else:
+                    # division by a non-constant: left uninterpreted (the same symbol in code and specification)
+                    f = vc.ufun('ext.go.quo' if op == '/' else 'ext.go.rem', ['Int', 'Int'], 'Int')
+                    t = '(%s %s %s)' % (f, x.term, y.term)
                 if op == '/':
                     t = self.wrap(t, ts)
             elif op in ('<<', '>>'):
@@ -1056,10 +1093,10 @@ class Exec:
                 if yk and not yk.startswith('u'):
                     self.oblige('shift', 'negative shift count', self.reach, '(>= %s 0)' % y.term, ['C03'], line)
                     vc.assume('(>= %s 0)' % y.term, self.reach)
-                f = vc.ufun('go.shl' if op == '<<' else 'go.shr', ['Int', 'Int'], 'Int')
+                f = vc.ufun('ext.go.shl' if op == '<<' else 'ext.go.shr', ['Int', 'Int'], 'Int')
                 t = '(%s %s %s)' % (f, x.term, y.term)
             elif op in ('&', '|', '^', '&^'):
-                f = vc.ufun({'&': 'go.and', '|': 'go.or', '^': 'go.xor', '&^': 'go.andnot'}[op], ['Int', 'Int'], 'Int')
+                f = vc.ufun({'&': 'ext.go.and', '|': 'ext.go.or', '^': 'ext.go.xor', '&^': 'ext.go.andnot'}[op], ['Int', 'Int'], 'Int')
                 t = '(%s %s %s)' % (f, x.term, y.term)
             else:
                 raise Unsupported('int binop ' + op)
@@ -1512,7 +1549,12 @@ def verify_function(vc, func, contract):
     o = vc.oblige('cover', 'pre', 'precondition is satisfiable', 'true', 'true', [], func.line)
     o.expect = 'sat'
     rets = ex.run(args, st, 'true')
+    vc.cur_block = None
+    if rets:
+        o = vc.oblige('cover', 'ret', 'some return is reachable', 'true', or_(*[r[0] for r in rets]), [], func.line)
+        o.expect = 'sat'
     for k, (cond, rs, rst, line, bidx) in enumerate(rets):
+        vc.cur_block = bidx
         renv = dict(env)
         rs = [ex.adapt(r, func.results[i]) for i, r in enumerate(rs)]
         rs = [V(r.term, r.sort, func.results[i]) for i, r in enumerate(rs)]
@@ -1525,8 +1567,6 @@ def verify_function(vc, func, contract):
         for nme, r in zip(func.resultnames, rs):
             if nme and nme != '_':
                 renv.setdefault(nme, r)
-        o = vc.oblige('cover', 'ret%d' % k, 'return is reachable', cond, 'true', [], line)
-        o.expect = 'sat'
         if contract is None:
             continue
         for (site, lname, largs, ucond) in contract.uses:
